@@ -379,8 +379,8 @@ def check_flag_match(rep, fm):
             return conjuncts(c[1]) + conjuncts(c[2])
         return [c]
     for l in getattr(fo, "loops", []):
-        for bc, _vals in l.get("breaks", []):
-            if both(bc):
+        for bc, _vals in list(l.get("breaks", [])) + list(l.get("returns", [])):      # a helper returning from inside its scan stops it like a break
+            if bc is not None and both(bc):
                 cand.append((l, bc, True) + both(bc))            # the search stops when bc holds
         cj = [c for c in conjuncts(l.get("cond")) if c is not None and both(c)]
         if len(cj) == 1:
